@@ -491,13 +491,13 @@ func c15RunLoop(p *load.Program, r *oblig.Report) {
 	}
 	// leaveGroup sites: 2, each with the member id returned by the last nextGeneration
 	lcs := callsTo(run, func(cc *ssa.CallCommon) bool { return an.StaticCalleeIs(cc, lg) })
-	okLeave := len(lcs) == 2
+	okLeave := len(lcs) >= 2 // the closed and the error arm; since fix 5d2139f also the two cg.done exits
 	for _, c := range lcs {
 		if !strings.Contains(argDesc(c.Common().Args[1]), "nextGeneration#0") {
 			okLeave = false
 		}
 	}
-	r.Check(okLeave, rule, "ConsumerGroup.run → LeaveGroup is sent for the current member id on the closed and error arms", p.Pos(run.Pos()), "cg.leaveGroup(memberID) ×2 with memberID from nextGeneration", fmt.Sprintf("sites=%d", len(lcs)))
+	r.Check(okLeave, rule, "ConsumerGroup.run → LeaveGroup is sent for the current member id on the closed and error arms", p.Pos(run.Pos()), "cg.leaveGroup(memberID) on the closed arm, the error arm (and the cg.done exits), with memberID from nextGeneration", fmt.Sprintf("sites=%d", len(lcs)))
 	// run(): every return is either right after leaveGroup (closed arm) or the cg.done arm of a select that follows
 	// the error handling (no exit before a generation was attempted)
 	okExits := true
@@ -543,6 +543,20 @@ func c15RunLoop(p *load.Program, r *oblig.Report) {
 			okExits = false
 		}
 	})
+	// every exit of run() that follows an attempt to join passes leaveGroup(memberID): leaveGroup does nothing for an
+	// empty id, so the call is unconditional; in particular the RebalanceInProgress arm keeps its member id and must
+	// still leave when the group is closed while the error waits to be handed to Next
+	for _, c2 := range callsTo(run, func(cc *ssa.CallCommon) bool { return calleeNamed(cc, "ConsumerGroup", "nextGeneration") }) {
+		okL, badAt := an.MustPass(run, an.PointOf(c2.(ssa.Instruction)), func(i ssa.Instruction) bool {
+			c3, isC := i.(*ssa.Call)
+			return isC && an.StaticCalleeIs(&c3.Call, lg)
+		}, nil)
+		where := ""
+		if badAt != nil {
+			where = "the exit at " + p.Pos(badAt.Pos()) + " is reached without leaveGroup"
+		}
+		r.Check(okL, rule, "ConsumerGroup.run → LeaveGroup is sent for the current member id on every exit", p.Pos(run.Pos()), "cg.leaveGroup(memberID) on every path from nextGeneration to a return", where)
+	}
 	r.Check(okExits && nRet >= 3, rule, "ConsumerGroup.run → no exit bypasses the leave logic", p.Pos(run.Pos()), "return only after leaveGroup (closed) or from the cg.done arms that follow the error handling", fmt.Sprintf("returns=%d ok=%v", nRet, okExits))
 	// leaveGroup skips the request for an empty member id
 	_, ci := an.IfCond(lg.Blocks[0])
